@@ -3,7 +3,7 @@
 From Coq Require Import ZArith List Bool String.
 From Exactly Require Import Lib.Harness Model.Outcome.
 Import ListNotations.
-Open Scope Z_scope.
+Local Open Scope Z_scope.
 
 (** Outcome of the assert phase / of the execution as far as the verdict table is concerned:
     [None] = everything (incl. all assertions) passed; [Some FFail] = an assertion failed;
